@@ -58,6 +58,14 @@ CLAIMS = {
         text="Bounded: on the same operation programs and on dedicated harnesses for the heuristic scan of write_compressed_unhinted_name (two prior names incl. label+pointer forms, compressees of 2-4 labels with symbolic case): every pointer in the finished message points strictly backwards to a label start of an earlier name, none occurs inside SRV, CH-class A or unknown-type RDATA, none at all in Disabled mode, decompressed names equal the names given under the mode's case rule; Rdata::components classifies compressible names exactly for NS, MD, MF, CNAME, MB, MG, MR, PTR, MX, SOA, MINFO for ALL (class, type) pairs.",
         note="Same bounds and stub S8 as C12; pointers to offsets >= 64 and the POINTER_MAX branches are outside the bound.",
         ref="DESIGN.md A4.2, B-C13"),
+    "C26": dict(
+        text="Bounded: two consecutive calls of the real Rrl::process_response from an ARBITRARY valid bucket state (any key, any count <= rate*window, last refill up to 2^35 s + any nanoseconds in the past) with a symbolic clock (second gap 0..2^35 s + nanoseconds), compared step by step with an independent token bucket in 128-bit arithmetic: bucket count, refill time, the count <= limit invariant, and sent / slipped / dropped by slip value (slip 0 always dropped, slip 1 always slipped, slipped = TC set and no records besides OPT/TSIG). Rates symbolic in 1..=4 (1..=16 thorough) with window 1..=1024, plus concrete extreme configurations (u32::MAX rate, u32::MAX window, 65537x65535, 1000x4194303); RrlParams::new over all u32^4.",
+        note="Stubs: S2 Instant::now -> zero Instant + symbolic non-decreasing offset; S4 Rrl::should_slip -> source copy with the rand expression replaced by a symbolic bool (a cover witness string-matches the real source, so a changed should_slip makes the run inconclusive); RandomState built from two fixed keys; table size 1. Outside: symbolic rates > 16 (CBMC stalls on 32x32 multiplication; a hand-written SMT model of the refill expression over full ranges exists as lib/c26_refill_arith.py but is not part of the claim), more than two consecutive responses (rests on the asserted invariant), slip > 1 randomness, elapsed > 2^35 s.",
+        ref="DESIGN.md A4.2, B-C26"),
+    "C27": dict(
+        text="Bounded: two real process_response calls < 1 s apart on a fresh table (rate 1, window 1): the second response is limited iff neither is exempt (TCP, opcode != QUERY, send_response already false), same address family after IPv4-mapped canonicalisation through the real ReceivedInfo::new, same masked prefix (prefix lengths symbolic 0..=32 / 0..=64 through the real setters), same category, and (category != NOERROR or same QNAME ignoring case / same wildcard source of synthesis). Sources: any IPv4 / any of 2^128 IPv6 addresses per response; RCODE 0..=15 or extended 0..=4095; any opcode and flags. ReceivedInfo::new, the prefix setters and ip_to_dest_u64 additionally alone over all addresses and lengths.",
+        note="QNAME / source of synthesis concrete per harness (seven two-label configurations); same stubs as C26; distinct QNAMEs colliding in the 32-bit hash and table size > 1 are outside.",
+        ref="DESIGN.md A4.2, B-C27"),
 }
 
 GENERIC = dict(
